@@ -71,14 +71,23 @@ class Obs:
         inv = lab._inv
         self.weird = []
         nodes = list(G.nodes)
-        self.ordn = sorted(inv[n] for n in nodes if n in inv)
-        self.fpres = sorted(n[1] for n in nodes if n not in inv and _aug(n, "F"))
-        self.spres = sorted(n[1] for n in nodes if n not in inv and _aug(n, "S"))
+        freg = G.graph.get("F-nodes", {})
+        sreg = G.graph.get("S-nodes", {})
+        # ordinary nodes may be NAMED like augmented nodes (label family 'auglike'): a node counts as
+        # augmented when it looks like one and is either registered or not one of the harness's labels
+        try:
+            regd = set(freg.keys()) | set(sreg.keys())
+        except Exception:
+            regd = set()
+
+        def isaug(n, tag):
+            return _aug(n, tag) and (n not in inv or n in regd)
+        self.ordn = sorted(inv[n] for n in nodes if n in inv and not (isaug(n, "F") or isaug(n, "S")))
+        self.fpres = sorted(n[1] for n in nodes if isaug(n, "F"))
+        self.spres = sorted(n[1] for n in nodes if isaug(n, "S"))
         for n in nodes:
             if n not in inv and not _aug(n, "F") and not _aug(n, "S"):
                 self.weird.append("node:%r" % (n,))
-        freg = G.graph.get("F-nodes", {})
-        sreg = G.graph.get("S-nodes", {})
         self.fs = {}
         for key in list(freg.keys()):
             if not _aug(key, "F"):
@@ -479,7 +488,25 @@ def rand_history(rng, idx):
                 c = rng.choice("ap")
                 ops.append(["new", c])
                 kinds.append(c)
-    return {"ops": ops[:20], "src": "rnd:" + mode, "fam": C.Labels.FAMILIES[idx % len(C.Labels.FAMILIES)]}
+    fam = (C.Labels.FAMILIES + ("auglike",))[idx % (len(C.Labels.FAMILIES) + 1)]
+    ops = ops[:20]
+    if fam == "auglike":
+        # ordinary nodes NAMED ('F', 0), ('S', 0), ('F', 1): every object gets all three right after it is created
+        # (copies inherit them; ordinary nodes are never removed), so on a correct library no generated name can
+        # coincide with one of the harness's labels; the history stops before add_all_snode_combinations (fixed names)
+        kept, nobj = [], 0
+        for o in ops:
+            if o[0] == "alls":
+                break
+            if o[0] == "node":
+                continue
+            kept.append(o)
+            if o[0] == "new":
+                kept += [["node", nobj, v] for v in range(3)]
+            if o[0] in ("new", "copy"):
+                nobj += 1
+        ops = kept
+    return {"ops": ops, "src": "rnd:" + mode, "fam": fam}
 
 
 def gen_cases(ctx):
